@@ -15,7 +15,7 @@ import (
 // inductive invariant of the abstract machine; every history is replayed on the
 // real generator with the return value of every call compared.
 func C09(c *vf.Check) {
-	consts := map[string]string{"MaxOps": tier(c, "5", "7")}
+	consts := map[string]string{"MaxOps": tier(c, "5", "6")}
 	cases, res := collectTermCases(c, "MC_Hist", "MC_Hist.cfg", consts, tier(c, 10*time.Minute, 90*time.Minute))
 	c.Note("TLC MC_Hist: %d states, %d histories emitted; Inv, RefAgree, Permanent, refinement of GenProtocol hold (%.0fs)", res.Distinct, res.Cases, res.Wall.Seconds())
 
